@@ -1,4 +1,5 @@
 #pragma once
+#include "refs_cmp.hpp"
 #include "refs_fp.hpp"
 #include "refs_int.hpp"
 
@@ -8,5 +9,6 @@ namespace xv
     {
         register_int_specs();
         register_fp_specs();
+        register_cmp_specs();
     }
 }
